@@ -628,7 +628,7 @@ var fixed = []string{
 func gen(tier string, r *lib.Rand, emit func(string)) {
 	exhaust, ntree, nrand, nsearch, nmut := 4, 4, 2500, 40, 2000
 	if tier == "thorough" {
-		exhaust, ntree, nrand, nsearch, nmut = 6, 6, 60000, 600, 60000
+		exhaust, ntree, nrand, nsearch, nmut = 6, 6, 25000, 250, 25000
 	}
 	all := func(src string) {
 		h := hex(src)
